@@ -354,6 +354,7 @@ def r10_6(ctx: Ctx) -> None:
     from .c12 import NUMBER_GETTERS
     classes = [c for c in ctx.repo.subclasses("Feature") if c.module.rel.startswith(SECMET)]
     count = 0
+    written: Set[str] = set()
     for info in sorted(classes, key=lambda c: c.qual):
         func = next((n for n in info.node.body if isinstance(n, ast.FunctionDef) and n.name == "to_biopython"), None)
         if func is None:
@@ -375,6 +376,7 @@ def r10_6(ctx: Ctx) -> None:
                 if not comps:
                     continue
                 count += 1
+                written.add(target.slice.value)
                 ctx.repo.consulted.add(info.module.rel)
                 bad = []
                 for sub in ast.walk(value):
@@ -392,6 +394,78 @@ def r10_6(ctx: Ctx) -> None:
                        detail="; ".join(bad), form=text[:140])
     if count < 3:
         raise AnalysisError(f"expected at least 3 number-list qualifiers in to_biopython methods, found {count}")
+    # the reading side: the same qualifiers are read back as lists of number strings; any ordering applied to the
+    # strings before they are numbers (or that forgets the order) re-links the members in another order
+    readers = 0
+    for info in sorted(classes, key=lambda c: c.qual):
+        func = next((n for n in info.node.body if isinstance(n, ast.FunctionDef) and n.name == "from_biopython"), None)
+        if func is None:
+            continue
+        parents = {child: parent for parent in ast.walk(func) for child in ast.iter_child_nodes(parent)}
+        for node in walk_local(func):
+            key = None
+            if isinstance(node, ast.Call) and isinstance(node.func, ast.Attribute) and node.func.attr in ("pop", "get") \
+                    and node.args and isinstance(node.args[0], ast.Constant) and isinstance(node.args[0].value, str):
+                key = node.args[0].value
+            elif isinstance(node, ast.Subscript) and isinstance(node.ctx, ast.Load) and isinstance(node.slice, ast.Constant) \
+                    and isinstance(node.slice.value, str):
+                key = node.slice.value
+            if key not in written:
+                continue
+            readers += 1
+            ctx.repo.consulted.add(info.module.rel)
+            bad = []
+            # names the raw strings are held in, before they are converted
+            raw_names: Set[str] = set()
+            cur: ast.AST = node
+            converted = False
+            while cur in parents and not isinstance(cur, ast.stmt):
+                parent = parents[cur]
+                if isinstance(parent, ast.Call) and cur in parent.args:
+                    name = call_name(parent)
+                    if name == "sorted" and not converted:
+                        sort_key = kwarg(parent, "key")
+                        if sort_key is None or txt(sort_key) != "int":
+                            bad.append("sorted() on number strings is lexicographic")
+                    elif name in ("set", "frozenset", "reversed"):
+                        bad.append(f"{name}() forgets the written order")
+                if isinstance(parent, ast.SetComp):
+                    bad.append("set comprehension forgets the written order")
+                if isinstance(parent, ast.comprehension) and cur is parent.iter:
+                    comp = parents.get(parent)
+                    elt = getattr(comp, "elt", None)
+                    if elt is not None and any(isinstance(c, ast.Call) and call_name(c) in ("int", "float") for c in ast.walk(elt)):
+                        converted = True
+                    cur = comp if comp is not None else parent
+                    if isinstance(comp, ast.SetComp):
+                        bad.append("set comprehension forgets the written order")
+                    continue
+                if isinstance(parent, ast.Call) and call_name(parent) in ("int", "float"):
+                    converted = True
+                cur = parent
+            stmt = cur if isinstance(cur, ast.stmt) else parents.get(cur)
+            if isinstance(stmt, ast.Assign) and len(stmt.targets) == 1 and isinstance(stmt.targets[0], ast.Name) and not converted:
+                raw_names.add(stmt.targets[0].id)
+            for sub in walk_local(func):
+                if isinstance(sub, ast.Call) and call_name(sub) == "sorted" and sub.args and isinstance(sub.args[0], ast.Name) \
+                        and sub.args[0].id in raw_names:
+                    sort_key = kwarg(sub, "key")
+                    if sort_key is None or txt(sort_key) != "int":
+                        bad.append(f"sorted({sub.args[0].id}) on number strings is lexicographic")
+                if isinstance(sub, ast.Call) and isinstance(sub.func, ast.Attribute) and sub.func.attr == "sort" \
+                        and isinstance(sub.func.value, ast.Name) and sub.func.value.id in raw_names:
+                    sort_key = kwarg(sub, "key")
+                    if sort_key is None or txt(sort_key) != "int":
+                        bad.append(f"{sub.func.value.id}.sort() on number strings is lexicographic")
+                if isinstance(sub, ast.Call) and call_name(sub) in ("set", "frozenset", "reversed") and sub.args \
+                        and isinstance(sub.args[0], ast.Name) and sub.args[0].id in raw_names:
+                    bad.append(f"{call_name(sub)}({sub.args[0].id}) forgets the written order")
+            ctx.ob("R10.6", info.module.rel, node, f"{info.name}.from_biopython", f"number list `{key}` read back", not bad,
+                   "a list of member numbers is read back in the order it was written (members are re-linked in the order of "
+                   "the numbers; number strings do not sort numerically)",
+                   detail="; ".join(bad), form=txt(stmt)[:140] if stmt is not None else "")
+    if readers < 2:
+        raise AnalysisError(f"expected at least 2 number-list qualifiers read back in from_biopython methods, found {readers}")
 
 
 LOCS = "antismash/common/secmet/locations.py"
@@ -514,7 +588,7 @@ def run(ctx: Ctx) -> None:
     ctx.rule("R10.3", "reference-resolving classes are postponed in dependency order", floor=4)
     ctx.rule("R10.4", "serialiser readers require only keys their writers emit", floor=8)
     ctx.rule("R10.5", "coordinate-sorted parts are restored to strand order before building a location", floor=1)
-    ctx.rule("R10.6", "member-number lists are written in member order, never string-sorted", floor=3)
+    ctx.rule("R10.6", "member-number lists are written and read back in member order, never string-sorted", floor=5)
     r10_1(ctx)
     r10_6(ctx)
     ctx.rule("R10.7", "location strings are read back with their compound operator", floor=1)
